@@ -17,7 +17,7 @@ ASSUMPTIONS = [
     'the serialized transaction is assembled by the harness from a symbolic shape (counts, field lengths: scheduler choices) and symbolic content',
 ]
 BOUNDS = {'quick': 'Input(witnesses=<wire bytes>) with 1..2 items of 0, 1, 2, 252, 253, 300 bytes; legacy and segwit transactions with 1..2 inputs and 1..2 outputs; version, locktime, sequences, outpoints, values fully symbolic; unlocking scripts: empty, standard <sig 71|72><pubkey 33> and <sig><uncompressed pubkey 65> with symbolic bytes, 1 fully symbolic byte; locking scripts: P2PKH / P2SH / P2WPKH / P2WSH templates with symbolic hash, empty, 1 fully symbolic byte; witness stacks: none, <sig><pubkey>, one item of 1 symbolic byte, empty item',
-          'thorough': 'as quick plus 2 fully symbolic script bytes, the two-input signed-legacy template, all five locking script templates, more witness item lengths'}
+          'thorough': 'as quick plus 2 fully symbolic script bytes, the two-input signed-legacy template (three locking script templates; measured 15 min), all five locking script templates for the other shapes, more witness item lengths'}
 OUTSIDE = 'scripts longer than the bound with fully symbolic content; taproot witness interpretation; blocks with transactions (only the header/target arithmetic is encoded)'
 
 
@@ -405,7 +405,7 @@ def jobs(tier):
                     continue            # 4000+ paths / 15 min: thorough tier only
                 j = Job('tx_templates_%s_%din_%s' % (tag, nin, uk0), h_tx_roundtrip, W=80, setup=setup, budget_s=6000,
                         params=dict(segwit=segwit, max_in=nin, min_in=nin, max_out=(2 if nin == 1 else 1), ukinds=[uk0],
-                                    lkinds=['p2pkh', 'p2wsh', 'empty'] if q else ['p2pkh', 'p2sh', 'p2wpkh', 'p2wsh', 'empty'],
+                                    lkinds=['p2pkh', 'p2wsh', 'empty'] if (q or (nin == 2 and uk0 == 'sig_pubkey')) else ['p2pkh', 'p2sh', 'p2wpkh', 'p2wsh', 'empty'],
                                     wkinds=['none', 'sig_pubkey', 'emptyitem']))
                 j.cost = 100
                 J.append(j)
